@@ -76,10 +76,12 @@ Definition spec_run (nv : nat) (ops : list op) : list obs := spec_from nv abs_in
      resized / reserved / assign(text, n)ed, or copied from such a string, and not cleared
      or assigned an empty text since); it is not part of the specification's values;
    - no 0 byte is stored through operator[];
-   - C-string operations (the appends, CapLength, -=, operator[] write, tolower/toupper,
-     resize, reserve, v = w.c_str()) are applied only to strings without 0 bytes: a string
-     holds 0 bytes only after a growing resize() or an assign(text, n) of such bytes, until
-     it is given a new value (assignment, copy, clear, assign(text, n)). *)
+   - the operations with C-string semantics (append of a literal or of a string, v = w.c_str(),
+     tolower/toupper) are applied only to strings without 0 bytes: a string holds 0 bytes
+     only after a growing resize() or an assign(text, n) of such bytes, until they are
+     overwritten through operator[] or the string is given a new value.  Everything else
+     (copies, operator[], append(char), CapLength, -=, resize, reserve, assign(text, n),
+     clear, the comparisons) is length-counted and has no such precondition. *)
 Definition inr (nv : nat) (v : N) : bool := N.ltb v (N.of_nat nv).
 
 Definition nonul (l : list N) : bool := forallb (fun c => negb (N.eqb c 0)) l.
@@ -101,13 +103,13 @@ Definition has_step (a : abs) (h : has) (o : op) : has :=
 
 Definition pre (nv : nat) (a : abs) (h : has) (o : op) : bool :=
   match o with
-  | OSetLit v _ | OGetChar v _ | OClear v | OAssignN v _ => inr nv v
+  | OSetLit v _ | OGetChar v _ | OClear v | OAssignN v _ | OAppendChar v _ | OCap v _ | OMinus v _
+  | OResize v _ | OReserve v _ => inr nv v
   | OCopy v w | OCtorCopy v w | OCmp v w => inr nv v && inr nv w
   | OAssignCstr v w => inr nv v && inr nv w && nonul (get a w)
-  | OAppendLit v _ | OAppendChar v _ | OCap v _ | OMinus v _ | OResize v _ | OReserve v _ =>
-      inr nv v && nonul (get a v)
+  | OAppendLit v _ => inr nv v && nonul (get a v)
   | OAppendStr v w => inr nv v && inr nv w && nonul (get a v) && nonul (get a w)
-  | OSetChar v _ c => inr nv v && get h v && nonul (get a v) && negb (N.eqb c 0)
+  | OSetChar v _ c => inr nv v && get h v && negb (N.eqb c 0)
   | OLower v | OUpper v => inr nv v && get h v && nonul (get a v)
   end.
 
